@@ -120,7 +120,8 @@ Eff(vx, vy, a) ==
 RECURSIVE SumPow2(_)
 SumPow2(s) == IF s = {} THEN 0 ELSE LET e == CHOOSE e \in s : TRUE IN 2 ^ e + SumPow2(s \ {e})
 Underlying(s) == SumPow2(s)
-FromWord(v) == {e \in Elems : (v \div (2 ^ e)) % 2 = 1}
+(* (v is a TLC integer, below 2^31: only the enumerators 0..30 can be bits of it) *)
+FromWord(v) == {e \in Elems \cap 0..30 : (v \div (2 ^ e)) % 2 = 1}
 
 (* operator<< (output.hpp "Outputs a bitfield"; format fixed by
    test/container/bitfield/output.cpp: "{}", "{test3}", "{test1,test2}"): the names of the
